@@ -562,6 +562,9 @@ func C02() int {
 				return
 			}
 			pv = confirm(it.prog, ProgOpts{}, pv)
+			if pv.Symptom == "" {
+				return // a sandbox kill that did not repeat (counted in common.go)
+			}
 			r.Fail("prog="+it.name+" symptom="+pv.Symptom, fmt.Sprintf("function program %s: %s (%s)", it.name, pv.Symptom, pv.Detail), progReplay(pv, nil))
 		}
 	})
@@ -575,5 +578,5 @@ func C02() int {
 	}
 	r.Set("rule", "every program built from function specs (parameter list over {x,y} x return arity x locals x write form x call form into the previous function), for 1 and 2 functions (3 in thorough), with globals g (before all functions, written in place), y (between f1 and f2) and x (after all functions, so x is reused as parameter/local), a fixed main that calls every function as statement, as value, in multi-value definition/assignment and performs simultaneous assignments; plus a handwritten typed/slice-by-reference family. Distinct by source text; every program prints all visible variables before/after every call.")
 	r.Assumef("reference interpreter tsmodel with lexical frames (scalars by value, slices by reference)")
-	return r.Finish()
+	return finish(r)
 }
